@@ -14,7 +14,7 @@ from harness import wave_common as W
 
 PROPS = ['C02_zero_distance_identity', 'C02_zero_distance_identity_numpy_fresnel', 'C02_two_steps_compose',
          'C02_two_steps_compose_numpy_fresnel', 'C02_step_programs', 'C02_kernel_compose', 'C02_kernel_zero',
-         'C02_kernel_undo', 'C02_kernel_program']
+         'C02_kernel_undo', 'C02_kernel_program', 'C02_pad_crop_identity']
 TOL = {'torch': 3e-3, 'numpy': 1e-8}
 METHODS = ['Angular Spectrum', 'Transfer Function Fresnel', 'Bandlimited Angular Spectrum']
 
